@@ -10,6 +10,7 @@ package c08
 import (
 	"fmt"
 	"os"
+	"strings"
 	"testing"
 
 	"pgregory.net/rapid"
@@ -164,6 +165,14 @@ func genCase(t *rapid.T) ax.Case {
 	if rapid.Bool().Draw(t, "small-pool") && len(pool) > 3 {
 		pool = pool[:3]
 	}
+	switch rapid.IntRange(0, 9).Draw(t, "pool-extra") {
+	case 3:
+		// the gap letter is a letter of the alphabet like any other (index 0): a sequence may hold it
+		pool = "-" + pool
+	case 6:
+		// the alphabets are case-insensitive: upper-case letters share the index of their lower-case forms
+		pool = pool + strings.ToUpper(pool)
+	}
 	maxLen := 40
 	if vlib.Thorough() {
 		maxLen = 200
@@ -202,6 +211,12 @@ func classes(c ax.Case) []string {
 	}
 	if c.Mat.Scale > 1 {
 		l = append(l, "scores-beyond-32-bits")
+	}
+	if strings.Contains(c.R+c.Q, "-") {
+		l = append(l, "gap-letter-inside-a-sequence")
+	}
+	if strings.ToLower(c.R+c.Q) != c.R+c.Q {
+		l = append(l, "upper-case-letters")
 	}
 	return l
 }
